@@ -164,6 +164,49 @@ static void run_sort(Ctx& ctx, bool T) {
           }
         }
     }
+    // nearly sorted inputs (both directions are sorted for each): an ordered run of length L - ascending / descending, strict /
+    // with repeats - followed (or preceded) by T unordered values that belong before / inside / after the run; two ordered runs
+    {
+        const int Ls[6] = {31, 32, 33, 40, 100, 1000};
+        const char* KN[4] = {"asc", "desc", "asc-repeats", "desc-repeats"};
+        const char* PL[3] = {"below", "inside", "above"};
+        auto runval = [](int kind, int i) {   // i-th value of an ordered run
+            const double v = (kind >= 2) ? (double)(i / 3) : (double)i;
+            return (kind & 1) ? -v : v;
+        };
+        for (int li = 0; li < 6; ++li) {
+            const int L = Ls[li];
+            const int Ts[5] = {1, 2, 5, 20, L - 1};
+            for (int kind = 0; kind < 4; ++kind)
+                for (int ti = 0; ti < 5; ++ti)
+                    for (int pl = 0; pl < 3; ++pl)
+                        for (int where = 0; where < 2; ++where) {   // 0: run first, unordered tail; 1: unordered head, run last
+                            const int Tn = Ts[ti];
+                            if (!ctx.take("sort.nearly", P().kv("run", KN[kind]).kv("L", L).kv("T", Tn).kv("values", PL[pl]).kv("order", where ? "head+run" : "run+tail"))) continue;
+                            const double lo = std::min(runval(kind, 0), runval(kind, L - 1)), hi = std::max(runval(kind, 0), runval(kind, L - 1));
+                            std::vector<double> run, extra;
+                            for (int i = 0; i < L; ++i) run.push_back(runval(kind, i));
+                            for (int i = 0; i < Tn; ++i) {
+                                const double u = lcg_val(1630 + (uint64_t)kind, (uint64_t)(i + 131 * L));   // (-1, 1), unordered
+                                extra.push_back(pl == 0 ? lo - 1 - 10 * (u + 1) : (pl == 2 ? hi + 1 + 10 * (u + 1) : lo + (hi - lo) * (u + 1) / 2));
+                            }
+                            std::vector<double> v = where ? extra : run;
+                            v.insert(v.end(), where ? run.begin() : extra.begin(), where ? run.end() : extra.end());
+                            check_sort_family(ctx, v);
+                        }
+        }
+        // two concatenated ordered runs
+        for (int L1 : {32, 40, 100})
+            for (int L2 : {1, 31, 40, 100})
+                for (int k1 = 0; k1 < 4; ++k1)
+                    for (int k2 = 0; k2 < 4; ++k2) {
+                        if (!ctx.take("sort.nearly", P().kv("run", KN[k1]).kv("L", L1).kv("run2", KN[k2]).kv("L2", L2))) continue;
+                        std::vector<double> v;
+                        for (int i = 0; i < L1; ++i) v.push_back(runval(k1, i));
+                        for (int i = 0; i < L2; ++i) v.push_back(runval(k2, i) + ((k2 & 1) ? L2 / 2 : -L2 / 2) + 0.5);   // overlapping value ranges
+                        check_sort_family(ctx, v);
+                    }
+    }
     // big arrays (beyond 65536 elements) with closed-form letters, both directions
     const char* bigl[] = {"reversed-ramp", "two-valued", "rotated-ramp", "ramp"};
     for (int n : {70000, 200000})
